@@ -4,11 +4,14 @@ Legs
   kd_seq    K-D: random pipelines (depth <= 4) over the real sequential operators vs the Lean model
             `TDV.Node.*` built from the same description; ops next / reset_none (several epochs, partial
             epochs, errors from map functions and ill-typed unbatching included).
-  kd_thr    K-D: a few pipelines containing a Prefetcher or a threaded in-order ParallelMapper (REAL threads
-            for now) vs the sequential abstraction `buffered`.
+  kd_thr    K-D: pipelines containing a Prefetcher or a ParallelMapper with workers (thread and virtual-process
+            method, in_order, and in_order=False with one worker), run under the virtual scheduler with a schedule
+            drawn per case, vs the sequential abstraction `buffered`.
   ko_ref    K-O: items of 3 consecutive epochs (re-iterating with node.reset()) vs a pure-Python reference
             evaluator written from the documentation (nodes_common.ref_epoch); error-free pipelines.
-  ko_thr    the same for a few pipelines with real threads.
+  ko_thr    the same for pipelines with threaded operators, several schedules each (adversarial timeouts on/off,
+            starved reader / starved consumer); a root ParallelMapper(in_order=False) with several workers is
+            compared as a multiset per epoch.
 """
 from __future__ import annotations
 
@@ -39,13 +42,15 @@ RULE = ("pipelines are generated from one PRNG: a leaf (IterableWrapper over a l
         "one item; distinct by (pipeline description, op list).")
 EXPLANATION = ("Lean: per-combinator denotation lemmas and epoch_complete over the model M3 (every reset() epoch, from any state, yields "
                "the reference items then stops). Tie: differential run of the real operators against the model driver on every run. "
-               "Oracle: real pipelines vs an independent reference evaluator over three epochs. Thread interleavings are NOT covered "
-               "here (real threads, OS schedule); the thread protocol is the subject of the PF/PM models.")
+               "Oracle: real pipelines vs an independent reference evaluator over three epochs. Every case runs under the virtual "
+               "scheduler (harness/vsched.py): reader, worker, sorter and consumer threads of the real code are interleaved from a "
+               "seed that is part of the case.")
 ASSUMPTIONS = [
     "map/filter functions are deterministic and come from a fixed vocabulary; `map_fn` raising is one error kind",
     "samplers are functions of the epoch passed to set_epoch; Stateful iterables satisfy the laws of StLaws (harness uses one such iterable)",
-    "Prefetcher / ParallelMapper(num_workers>0, in_order=True) are compared with their sequential abstraction `buffered`; "
-    "reset() without a next() since the previous reset is excluded for them (a reader thread may or may not have started the sampler)",
+    "Prefetcher / ParallelMapper(num_workers>0) are compared with their sequential abstraction `buffered`; "
+    "reset() without a next() since the previous reset is excluded for them (a reader thread may or may not have started the sampler); "
+    "a ParallelMapper with workers is only generated over sub-pipelines that cannot raise (C11)",
     "a raising reset() ends a K-D case (the model does not describe the half-initialised object)",
 ]
 KNOWN: Dict[str, Any] = {}
@@ -55,49 +60,61 @@ def _has_item(obs) -> bool:
     return any(isinstance(o, dict) and "i" in o for o in obs)
 
 
-def kd_batch(ctx: Ctx, leg: str, n: int, threads: bool):
-    reqs, reals, metas = [], [], []
-    for i in range(n):
-        d = nc.gen_pipe(ctx.rng, 4, allow_err=not threads or ctx.rng.random() < 0.3, allow_threads=threads)
-        inf = nc.info(d)
-        if threads and not inf["threaded"]:
-            d = {"op": "buffered", "sf": ctx.rng.choice([0, 1, 2, 3]), "pf": ctx.rng.choice([1, 2, 4]), "src": d}
-            inf = nc.info(d)
-        ops = nc.gen_ops(ctx.rng, ctx.rng.randrange(4, 14 if threads else 28), False, strict_epochs=inf["threaded"])
-        inp = {"pipe": d, "ops": ops}
-        try:
-            real = nc.run_ops_real(d, ops)
-        except Exception as e:  # noqa: BLE001
-            ctx.fail("pipeline_ops", inp, f"real pipeline raised outside next/reset: {type(e).__name__}: {e}")
-            continue
-        reqs.append({"m": "nodes", "pipe": d, "ops": ops})
-        reals.append(real)
-        metas.append(inp)
-        ctx.count("kd_root:" + d["op"])
-        if i < 1:
-            ctx.sample({"leg": leg, **inp})
-    answers = Driver().run(reqs)
-    for inp, real, ans in zip(metas, reals, answers):
+def _kd_real(ctx: Ctx, case):
+    try:
+        return nc.run_ops_real(case["pipe"], case["ops"], case["sched"])
+    except BaseException as e:  # noqa: BLE001
+        return ["<harness: %s: %s>" % (type(e).__name__, str(e)[:200])]
+
+
+def kd_leg(ctx: Ctx, n: int, with_tokens: bool, extra=()):
+    cases = list(extra)
+    for _ in range(n):
+        d = nc.gen_pipe(ctx.rng, 4, allow_err=True, p_thread=0.4)
+        thr = nc.info(d)["threaded"]
+        ops = nc.gen_ops(ctx.rng, ctx.rng.randrange(4, 16 if thr else 28), with_tokens, strict_epochs=thr)
+        cases.append({"pipe": d, "ops": ops, "sched": nc.gen_sched(ctx.rng)})
+    reals = ctx.pmap(_kd_real, cases)
+    answers = Driver().run([{"m": "nodes", "pipe": c["pipe"], "ops": c["ops"]} for c in cases])
+    seen = set()
+    for inp, real, ans in zip(cases, reals, answers):
+        inf = nc.info(inp["pipe"])
+        leg = "kd_thr" if inf["threaded"] else "kd_seq"
         ctx.model_lines += 1
+        if leg not in seen:
+            seen.add(leg)
+            ctx.sample({"leg": leg, **inp})
+        ctx.count("kd_root:" + inp["pipe"]["op"])
+        if real is None or (real and isinstance(real[-1], str) and real[-1].startswith("<harness")):
+            ctx.note(f"harness error in a K-D case: {real}")
+            continue
         if "error" in ans:
             ctx.diverge(leg, inp, "model driver error: " + str(ans["error"]))
             continue
         model = nc.truncate_at_raise(ans["obs"])
-        ctx.case(leg, inp, nc.info(inp["pipe"])["size"] > 1 and _has_item(real))
+        uses_tok = any(isinstance(o, list) for o in inp["ops"])
+        ctx.case(leg, inp, inf["size"] > 1 and _has_item(real) and (uses_tok or not with_tokens))
+        if real and isinstance(real[-1], str) and real[-1].startswith("hang"):
+            ctx.fail("pipeline_ops", inp, f"the pipeline hangs at op {len(real) - 1} ({inp['ops'][len(real) - 1]}): {real[-1]}")
+            continue
         if model != real:
             k = next((j for j, (a, b) in enumerate(zip(model, real)) if a != b), min(len(model), len(real)))
             ctx.diverge(leg, inp, f"first difference at op {k} ({inp['ops'][k] if k < len(inp['ops']) else '?'}): impl={real[k:k+3]} model={model[k:k+3]}")
 
 
-def run_epochs(d, nep: int) -> List[Any]:
+def run_epochs(d, nep: int, sched=None) -> List[Any]:
     """Items of `nep` consecutive epochs through node.reset(); an exception ends the run and is reported."""
-    node = nc.build_real(d)
+    nodes: List[Any] = []
     out = []
-    try:
+    with nc.session(sched, nodes) as s:
+        node = nc.build_real(d)
+        nodes.append(node)
         for _ in range(nep):
+            s.begin_op()
             node.reset()
             ep = []
             for _i in range(10000):
+                s.begin_op()
                 try:
                     ep.append(nc.canon_item(next(node)))
                 except StopIteration:
@@ -105,50 +122,70 @@ def run_epochs(d, nep: int) -> List[Any]:
             else:
                 ep.append("<no stop after 10000 items>")
             # a second next() after the stop must stop again
+            s.begin_op()
             try:
                 next(node)
                 ep.append("<item after stop>")
             except StopIteration:
                 pass
             out.append(ep)
-    finally:
-        nc.shutdown(node)
+        node = None
     return out
 
 
-def check_ref(d, nep: int = 3) -> Tuple[bool, str]:
+def _ms(xs):
+    return sorted(repr(x) for x in xs)
+
+
+def check_ref(d, nep: int = 3, sched=None) -> Tuple[bool, str]:
+    from .. import vsched
     try:
-        got = run_epochs(d, nep)
+        got = run_epochs(d, nep, sched)
+    except vsched.VHang as h:
+        return False, f"pipeline hangs: {h}"
     except Exception as e:  # noqa: BLE001
         return False, f"pipeline raised {type(e).__name__}: {e}"
     want = [nc.ref_epoch(d, j) for j in range(nep)]
+    if nc.info(d)["unordered"]:
+        got, want = [_ms(e) for e in got], [_ms(e) for e in want]
     if got != want:
         j = next(j for j in range(nep) if got[j] != want[j])
         return False, f"epoch {j}: pipeline yields {got[j]} but the reference is {want[j]}"
     return True, "ok"
 
 
-def ko_batch(ctx: Ctx, leg: str, n: int, threads: bool):
-    for i in range(n):
-        d = nc.gen_pipe(ctx.rng, 4, allow_err=False, allow_threads=threads)
-        if threads and not nc.info(d)["threaded"]:
-            d = {"op": "buffered", "sf": ctx.rng.choice([0, 1, 2]), "pf": ctx.rng.choice([1, 3]), "src": d}
-        inp = {"pipe": d, "epochs": 3}
-        ok, msg = check_ref(d, 3)
-        ref0 = nc.ref_epoch(d, 0)
-        ctx.case(leg, inp, nc.info(d)["size"] > 1 and len(ref0) > 0)
+def _ko_one(ctx: Ctx, job):
+    d = job["pipe"]
+    inf = nc.info(d)
+    leg = "ko_thr" if inf["threaded"] else "ko_ref"
+    ref0 = nc.ref_epoch(d, 0)
+    for sc in job["scheds"]:
+        inp = {"pipe": d, "epochs": 3, "sched": sc}
+        ok, msg = check_ref(d, 3, sc)
+        ctx.case(leg, inp, inf["size"] > 1 and len(ref0) > 0)
         ctx.count("ko_sig:" + nc.pipe_sig(d).split("(")[0])
-        if i < 1:
-            ctx.sample({"leg": leg, **inp, "epoch0": ref0})
+        if inf["threaded"]:
+            ctx.count("sched:" + ("adv" if sc["adv"] else "plain") + ("/starve_" + ("main" if "main" in sc["weights"] else "reader") if sc["weights"] else ""))
         if not ok:
             ctx.fail("ref_epochs", inp, msg)
+            break
+    return leg
+
+
+def ko_leg(ctx: Ctx, n: int):
+    jobs = []
+    for i in range(n):
+        d = nc.gen_pipe(ctx.rng, 4, allow_err=False, p_thread=0.4, unordered_root=True)
+        thr = nc.info(d)["threaded"]
+        jobs.append({"pipe": d, "scheds": [nc.gen_sched(ctx.rng) for _ in range(3 if thr else 1)]})
+    for j in jobs[:2]:
+        ctx.sample({"leg": "ko", "pipe": j["pipe"], "sched": j["scheds"][0], "epoch0": nc.ref_epoch(j["pipe"], 0)})
+    ctx.pmap(_ko_one, jobs)
 
 
 def run(ctx: Ctx):
-    kd_batch(ctx, "kd_seq", ctx.n(1500, 30000), False)
-    kd_batch(ctx, "kd_thr", ctx.n(90, 800), True)
-    ko_batch(ctx, "ko_ref", ctx.n(1500, 30000), False)
-    ko_batch(ctx, "ko_thr", ctx.n(70, 600), True)
+    kd_leg(ctx, ctx.n(1400, 30000), False)
+    ko_leg(ctx, ctx.n(1000, 25000))
 
 
 def escalate(ctx: Ctx):
@@ -158,11 +195,13 @@ def escalate(ctx: Ctx):
 def replay(ctx: Ctx, payload) -> Tuple[bool, str]:
     kind, inp = payload["kind"], payload["input"]
     if kind == "ref_epochs":
-        return check_ref(inp["pipe"], inp.get("epochs", 3))
+        return check_ref(inp["pipe"], inp.get("epochs", 3), inp.get("sched"))
     if kind == "pipeline_ops":
         try:
-            nc.run_ops_real(inp["pipe"], inp["ops"])
+            obs = nc.run_ops_real(inp["pipe"], inp["ops"], inp.get("sched"))
         except Exception as e:  # noqa: BLE001
             return False, f"{type(e).__name__}: {e}"
+        if obs and isinstance(obs[-1], str) and obs[-1].startswith("hang"):
+            return False, obs[-1]
         return True, "ok"
     return True, "unknown kind"
